@@ -241,6 +241,14 @@ CheckOp(ev) ==
                   \cup {V("C02.alive-mismatch", h) : h \in {g \in shouldLive : g \notin SetOf(ev.st.alive)}}
                   \cup {V("C02.alive-mismatch", h) : h \in {g \in SetOf(ev.st.dead) : g \in shouldLive}}
                   \cup (IF ev.op = "Load" /\ SetOf(ev.st.alive) # shouldLive THEN {V("C17.alive", ev.st.alive)} ELSE {})
+        \* handles from before the last Reset: the Reset removed those entities; none is alive unless it was issued again
+        \* since (or is the handle the world will issue next for that id: its predecessor was issued and removed since -
+        \* a handle the world has not issued in this epoch, about which the properties are silent)
+        vOld == IF "oldalive" \in DOMAIN ev.st
+                THEN UNION {{V("C02.alive-mismatch", <<"alive after Reset", h>>)}
+                            \cup (IF ev.op = "Reset" THEN {V("C16.diverge", <<"alive after Reset", h>>)} ELSE {})
+                            : h \in {g \in SetOf(ev.st.oldalive) : g \notin shouldLive /\ <<g[1], g[2] - 1>> \notin exp.issued}}
+                ELSE {}
         vCount == IF ev.st.used # Cardinality(shouldLive)
                   THEN {V(IF ~x.pre \/ ev.panic THEN (IF lockMis THEN "C07.effect-after-panic" ELSE "C10.state-changed")
                           ELSE "C02.count", ev.st.used)}
@@ -373,7 +381,7 @@ CheckOp(ev) ==
        THEN [def |-> TRUE, next |-> w, vs |-> {V("C02.no-new-handle", <<ev.op, ev.ret>>)}]
        ELSE
        [def |-> x.def, next |-> exp,
-        vs |-> IF x.def THEN vPanic \cup vDup \cup vAlive \cup vCount \cup vEnt \cup vLock \cup vCb \cup vC08 \cup vC09 \cup vQ \cup vShr \cup vDump \cup vRes \cup vReg ELSE {}]
+        vs |-> IF x.def THEN vPanic \cup vDup \cup vAlive \cup vCount \cup vEnt \cup vLock \cup vCb \cup vC08 \cup vC09 \cup vQ \cup vShr \cup vDump \cup vRes \cup vReg \cup vOld ELSE {}]
 
 (***************************************************************************)
 (* Probes: a query / Count / EntityAt battery run by the executor.         *)
